@@ -41,6 +41,7 @@ def run(tier, rep):
             ("sig", dict(Family='"sig"', M=6, Part=0, Parts=1, EmitMod=1 if thorough else 2, DocN=3 if thorough else 2)),
             ("dyn", dict(Family='"dyn"', M=5, Part=0, Parts=1, EmitMod=1 if thorough else 2, DocN=3)),
             ("pos", dict(Family='"pos"', M=4, Part=0, Parts=1, EmitMod=16 if thorough else 12, DocN=5 if thorough else 4)),
+            ("tplshare", dict(Family='"tplshare"', M=6, Part=0, Parts=1, EmitMod=1, DocN=3)),
             ("all M=2", dict(Family='"all"', M=2, Part=0, Parts=1, EmitMod=1, DocN=3))]
     if thorough:
         jobs += [("all M=3", dict(Family='"all"', M=3, Part=0, Parts=1, EmitMod=1, DocN=3))]
@@ -102,7 +103,7 @@ def run(tier, rep):
     rep.cov["rule"] = ("B1: declaration trees (M nodes over 34 node variants: field/const/object/array/concat x xpath x type x no_trim x keep) "
                        "x records (<=3 nodes), plus the directed families 'collide' (identical declarations in anchoring and non-anchoring "
                        "position), 'order' (array with 11 elements) and 'dyn' (xpath_dynamic whose computation succeeds, is empty or fails, next to a "
-                       "declaration with the same text), 'pos' (fields, array elements and object anchors whose xpath carries a positional predicate - n[1], n[2], n[last()], *[last()], *[2], a/b[last()] - over records of <=4 (thorough: <=5, 2 033 984 states) nodes with equally named siblings separated by text), 'cast' (every typed source x every result type), 'ietwin' (script calls differing only in ignore_error, one throwing), 'sig' (a call of a user function (string, int64, float64, bool) with every argument present, absent or empty: absent ones arrive as their own parameter's zero value); Stream.tla: every input of <=3/4 records and persistent siblings x targets /*/b, /*/* x declaration "
+                       "declaration with the same text), 'tplshare' (two objects with equal bodies, the first anchored and the second not: in the template rendering one template referenced from two sites - declarations with equal bodies share a template), 'pos' (fields, array elements and object anchors whose xpath carries a positional predicate - n[1], n[2], n[last()], *[last()], *[2], a/b[last()] - over records of <=4 (thorough: <=5, 2 033 984 states) nodes with equally named siblings separated by text), 'cast' (every typed source x every result type), 'ietwin' (script calls differing only in ignore_error, one throwing), 'sig' (a call of a user function (string, int64, float64, bool) with every argument present, absent or empty: absent ones arrive as their own parameter's zero value); Stream.tla: every input of <=3/4 records and persistent siblings x targets /*/b, /*/* x declaration "
                        "trees that read outside the record (`..`-anchored objects, ../a, ../b), expected value per record from the partial tree at "
                        "delivery time; each rendered three ways (inline, every subtree as a template, "
                        "xpath_dynamic) for XML and JSON input; expectations from RefEval in Eval.tla. B2: random trees (<=8/10 nodes) and "
